@@ -51,9 +51,20 @@ def _snap(x, exact, must_be_exact=False):
 
 
 def _hist(case):
+    from dyce import H
+
     if case["k"] == "add":
         return C.dec_h(case["a"]) + C.dec_h(case["b"])
-    return C.dec_h(case["h"])
+    if case.get("mixed"):
+        # bare outcomes mixed with (outcome, count) pairs: H falls back to natural_key ordering, so the stored order
+        # need not be ascending — distribution() must still be
+        return H([C.dec_out(o) if c == 1 else (C.dec_out(o), c) for o, c in case["h"]])
+    h = C.dec_h(case["h"])
+    if case.get("twin_first") and all(c < 2**50 for c in h.counts()):  # (float outcomes times astronomically large counts overflow: float arithmetic, not asked here)
+        # an == / hash-equal histogram with float outcomes is asked first: nothing it computed may leak into h's answers
+        t = H([(float(o), 2 * c) for o, c in h.items()])
+        _ = (t.mean(), t.variance(), t.stdev() if t.total else None, list(t.distribution()), t.distribution_xy())
+    return h
 
 
 def _spec_items(case):
@@ -179,12 +190,15 @@ def generate(rnd, tier, scale):
             # totals beyond 10**12 that do not reduce: probabilities are still exactly count/total
             j = rnd.randrange(len(h))
             h = [[o, rnd.choice([10**13 + 1, 2**61 - 1, 3**40 + 2, 6**16]) if i == j else c] for i, (o, c) in enumerate(h)]
+        extra = {}
+        if rnd.random() < 0.15:
+            extra = {"mixed": True} if rnd.random() < 0.5 and kind in ("int", "neg") else {"twin_first": True}
         r = rnd.random()
         if r < 0.75:
             mu = None
             if rnd.random() < 0.3:
                 mu = rnd.choice(["i:0", "i:2", "q:1/2", "i:-1"]) if kind != "frac" else rnd.choice(["q:0/1", "q:3/2", "q:-1/3"])
-            yield dict(k="stats", h=h, mu=mu)
+            yield dict(k="stats", h=h, mu=mu, **extra)
         else:
             b = gen.rand_h(rnd, 4, kind if kind != "bool" else "int", counts=(0, 1, 2, 3))
             yield dict(k="add", a=h, b=b, mu=None)
